@@ -374,16 +374,27 @@ class StructureMetaType(MetaType):
         cls.__fields__.append(field)
 
         if not cls.__updating__:
-            cls.commit()
+            try:
+                cls.commit()
+            except Exception:
+                # A rejected field does not stay behind
+                cls.__fields__.remove(field)
+                raise
 
     @contextmanager
     def start_update(cls) -> Iterator[None]:
+        fields = list(cls.__fields__)
         try:
             cls.__updating__ = True
             yield
         finally:
-            cls.commit()
             cls.__updating__ = False
+            try:
+                cls.commit()
+            except Exception:
+                # A rejected batch does not stay behind
+                cls.__fields__[:] = fields
+                raise
 
     def commit(cls) -> None:
         classdict = cls._update_fields(cls.__fields__, cls.__align__)
